@@ -139,9 +139,9 @@ func checkC01(c *Ctx) {
 			}
 		}
 		// seeded multi-fault plans
-		n := 6
+		n := 30
 		if c.Tier == "thorough" {
-			n = 120
+			n = 300
 		}
 		for i := 0; i < n; i++ {
 			cfg := ref.Cfg
@@ -354,9 +354,9 @@ func (c *Ctx) minimizeCrash(fc *faultCase, class, where, detail string) *Finding
 func (c *Ctx) stageHTTP(refs map[refKey]*Ref, keys []refKey) {
 	rng := stream(c.Seed, "http")
 	var cases []*faultCase
-	n := 8
+	n := 24
 	if c.Tier == "thorough" {
-		n = 200
+		n = 400
 	}
 	for _, k := range keys {
 		ref := refs[k]
@@ -410,9 +410,9 @@ func (c *Ctx) stageHTTP(refs map[refKey]*Ref, keys []refKey) {
 // stageConcurrentFaults: 2-3 token-scheduled renders, one of which meets faults.
 func (c *Ctx) stageConcurrentFaults(refs map[refKey]*Ref, keys []refKey) {
 	rng := stream(c.Seed, "c01-sched")
-	n := 20
+	n := 120
 	if c.Tier == "thorough" {
-		n = 600
+		n = 2000
 	}
 	var small []refKey
 	for _, k := range keys {
